@@ -33,7 +33,7 @@ CLAIMED["C06"] = ("model_checking",
   "Trusted: TLC, harness child-process isolation (20 s watchdog, 8 GiB RLIMIT_AS), runtime.MemStats.TotalAlloc. 'All byte strings' is explored, not proved. Arrays of zero-byte items with huge counts are a listed known finding.",
   "DESIGN.md section 6 C06")
 CLAIMED["C07"] = ("model_checking",
-  "TLA+ ReaderDamage state machine (header/block/decompress/record/sync with damage and callback-failure environment actions) model-checked by TLC; ReadFile on bit-flipped, header-damaged and callback-failing runs trace-validated by TLC (Trace_Reader) with an independent decompressor as environment oracle",
+  "TLA+ ReaderDamage state machine (header/block/decompress/record/sync with damage and callback-failure environment actions; the defect cfg that holds the callback's error back behind the sync check must violate AtEnd) model-checked by TLC; ReadFile on bit-flipped, header-damaged and callback-failing runs trace-validated by TLC (Trace_Reader) with an independent decompressor as environment oracle",
   "TLC checks the C07 statement on the abstract reader for every file of <= 3 blocks x <= 2 records with any combination of rejected payloads, checksum mismatches, bad sync markers, five header variants and every callback failure index (222k states). Every recorded ReadFile run on real files is then judged: single-bit flips in every sync marker and snappy checksum and across compressed payloads (classified by compress/flate, snappy, crc32 called independently), header variants (missing codec = uncompressed must succeed), callback failing at each record index (error returned by identity, exactly i records delivered before).",
   "Trusted: TLC, harness/project.go, flate/snappy/crc32 as environment oracle. A flipped payload the independent decompressor still accepts imposes only no-panic and intact earlier blocks.",
   "DESIGN.md section 6 C07")
